@@ -138,13 +138,16 @@ def record(sc):
                         st = pool.remove_store(a[1])
                         if hasattr(st, "delete"):
                             st.delete()
+                    elif a[0] == "addstore":
+                        pool.add_store(a[1])
                     elif a[0] == "replace":
                         ver[a[1]] += 1
                     elif a[0] == "reopen":
                         pool.close()
                         pool = elfi.ArrayPool.open(name, prefix=workdir)
                     elif a[0] == "badctx":
-                        kw = dict(batch_size=sc["bs"] + 1, seed=sc["seed"]) if a[1] == "bs" else dict(batch_size=sc["bs"], seed=sc["seed"] + 1)
+                        kw = dict(batch_size=sc["bs"] + 1, seed=sc["seed"]) if a[1] == "bs" else \
+                            dict(batch_size=sc["bs"], seed=(sc["seed"] + 1) if a[1] == "seed" else 0)     # "seed0": seed 0 is a seed like any other
                         elfi.Rejection(build(sc, ver)["d"], pool=pool, **kw)
             except Hang:
                 e["raised"] = "Hang"
@@ -179,6 +182,7 @@ def random_history(rnd, stored, pool_kind, n_acts):
     stored = set(stored)
     acts = []
     replaced = set()
+    removed_once = set()
     ran = False
     for _ in range(n_acts):
         ch = ["run", "run", "run"]
@@ -193,6 +197,11 @@ def random_history(rnd, stored, pool_kind, n_acts):
             ch.append("reopen")
         if ran:
             ch.append("badctx")
+        gone = [n for n in ("sim", "S", "d") if n not in stored and n in removed_once and n not in replaced
+                and not (n == "S" and "S" in replaced) and not (n == "d" and ("S" in replaced or "d" in replaced))
+                and not ({"t1", "t2"} & stored)]
+        if gone and ran:
+            ch += ["addstore", "addstore"]
         a = rnd.choice(ch)
         if a == "run":
             acts.append(["run", rnd.randint(1, 4)])
@@ -200,7 +209,13 @@ def random_history(rnd, stored, pool_kind, n_acts):
         elif a == "remove":
             n = rnd.choice(removable)
             stored.discard(n)
+            removed_once.add(n)
             acts.append(["remove", n])
+        elif a == "addstore":
+            n = rnd.choice(gone)
+            stored.add(n)
+            acts.append(["addstore", n])
+            acts.append(["run", rnd.randint(1, 4)])
         elif a == "replace":
             n = rnd.choice(rep)
             replaced.add(n)
@@ -208,7 +223,7 @@ def random_history(rnd, stored, pool_kind, n_acts):
         elif a == "reopen":
             acts.append(["reopen"])
         else:
-            acts.append(["badctx", rnd.choice(["bs", "seed"])])
+            acts.append(["badctx", rnd.choice(["bs", "seed", "seed0"])])
     if not any(a[0] == "run" for a in acts[1:]):
         acts.append(["run", rnd.randint(1, 4)])
     return acts
@@ -238,7 +253,7 @@ def scenarios(ctx):
         for pool_kind in ("output", "array"):
             for _ in range(reps):
                 bs = rnd.choice([1, 2, 3])
-                out.append(dict(stored=stored, pool=pool_kind, bs=bs, n=rnd.randint(1, bs), seed=rnd.randint(0, 2 ** 31 - 1),
+                out.append(dict(stored=stored, pool=pool_kind, bs=bs, n=rnd.randint(1, bs), seed=rnd.randint(1, 2 ** 31 - 1),
                                 extra=rnd.choice([[], ["S"], ["S", "sim"]]),
                                 acts=random_history(rnd, stored, pool_kind, rnd.randint(3, 6))))
     return out
